@@ -727,7 +727,7 @@ def lower_adapt(R):
             and same(ty.VectorType(ty.Float(), 2), r.Arguments["p1"]) and same(ty.Integer(), r.ReturnType), detail="function type: parameter names in order, parameter and return types")
 
 
-@family("LOWER.argaccess", props=["C01", "C03", "C14"], functions=["nsl.passes.RewriteFunctionArgAccess::RewriteFunctionArgAccessVisitor.v_Function",
+@family("LOWER.argaccess", props=["C01", "C03", "C14", "C06", "C07"], functions=["nsl.passes.RewriteFunctionArgAccess::RewriteFunctionArgAccessVisitor.v_Function",
                                                               "nsl.passes.RewriteFunctionArgAccess::RewriteFunctionArgAccessVisitor.v_VariableAccessInstruction"])
 def lower_argaccess(R):
     """The index substituted for a parameter name is its position in the function type (the position at which Invoke / CALL place the argument);
@@ -756,6 +756,18 @@ def lower_argaccess(R):
     ok = [i.Reference for i in ins] == refs and [i.Variable for i in ins[:3]] == [2, 1, 0] and len(newst) == 1 and newst[0].Variable == 1 and newst[0].Store is not None \
         and newst[0].Store.Reference == refs[0] and newst[0].OpCode == ir.OpCode.STORE and loc in ins and glo in ins and loc.Variable == "alpha" and glo.Variable == "gamma"
     R.check("LOWER.argaccess", "nsl.passes.RewriteFunctionArgAccess::RewriteFunctionArgAccessVisitor.v_VariableAccessInstruction", ok, detail=f"after the pass: {got}")
+    # unnamed parameters (generated names `$arg$N`) count as positions: `f(int, float b)` reads b at position 1
+    for layout in (["$arg$0", "b"], ["a", "$arg$1", "c"], ["$arg$0", "$arg$1", "c"], ["a", "b", "$arg$2"]):
+        f2 = ir.Function("f", ir.FunctionType(I, collections.OrderedDict((n, I) for n in layout)))
+        bb2 = f2.CreateBasicBlock()
+        named = [n for n in layout if not n.startswith("$")]
+        lds = [bb2.AddInstruction(ir.VariableAccessInstruction(I, n, ir.VariableAccessScope.FUNCTION_ARGUMENT)) for n in named]
+        m2 = ir.Module()
+        m2.Functions["f"] = f2
+        cls().Visit(m2)
+        got2 = [i.Variable for i in f2.Instructions]
+        R.check(f"LOWER.argaccess.unnamed[{','.join(layout)}]", "nsl.passes.RewriteFunctionArgAccess::RewriteFunctionArgAccessVisitor.v_Function", got2 == [layout.index(n) for n in named],
+                detail=f"parameters {layout}: accesses of {named} rewritten to positions {got2}")
 
 
 # ---------------------------------------------------------------------------
